@@ -1752,12 +1752,33 @@ class IRGenerator:
         for namespace_name, doc_routes in route_doc_routes.items():
             output_routes_by_ns[namespace_name].update(doc_routes)
 
-        # Update the IR representation. This involves editing the data types and
-        # routes for each namespace.
+        retained_data_types = set()
+        for output_types in output_types_by_ns.values():
+            retained_data_types.update(output_types)
+
+        def refers_to_removed_type(data_type):
+            if is_alias(data_type) or is_list_type(data_type) or \
+                    is_nullable_type(data_type):
+                return refers_to_removed_type(data_type.data_type)
+            elif is_map_type(data_type):
+                return (refers_to_removed_type(data_type.key_data_type) or
+                        refers_to_removed_type(data_type.value_data_type))
+            elif is_user_defined_type(data_type):
+                return data_type not in retained_data_types
+            return False
+
+        # Update the IR representation. This involves editing the data types,
+        # aliases and routes for each namespace.
         for namespace in self.api.namespaces.values():
             data_types = list(set(output_types_by_ns[namespace.name]))  # defaults to empty list
             namespace.data_types = data_types
             namespace.data_type_by_name = {d.name: d for d in data_types}
+
+            # An alias is kept only if every data type it refers to is kept.
+            aliases = [alias for alias in namespace.aliases
+                       if not refers_to_removed_type(alias)]
+            namespace.aliases = aliases
+            namespace.alias_by_name = {a.name: a for a in aliases}
 
             output_route_reprs = [output_route.name_with_version()
                                   for output_route in output_routes_by_ns[namespace.name]]
